@@ -59,6 +59,26 @@ func (valImpl) exec(op string) string {
 				return "err"
 			}
 			return "ok"
+		case w[0] == "dec" && w[1] == "read":
+			var f quickfix.FIXDecimal
+			if err := f.Read(unhx(w[2])); err != nil {
+				return "err"
+			}
+			return fmt.Sprintf("ok %s %d", f.Decimal.Coefficient().String(), -f.Decimal.Exponent())
+		case w[0] == "dec" && w[1] == "write":
+			var f quickfix.FIXDecimal
+			if err := f.Read(unhx(w[2])); err != nil {
+				return "unreadable"
+			}
+			f.Scale = int32(atoiMust(w[3]))
+			return hx(f.Write())
+		case w[0] == "udec" && w[1] == "write":
+			var f quickfix.FIXUDecimal
+			if err := f.Read(unhx(w[2])); err != nil {
+				return "unreadable"
+			}
+			f.Scale = uint8(atoiMust(w[3]))
+			return hx(f.Write())
 		case w[0] == "str" && w[1] == "read":
 			var f quickfix.FIXString
 			if err := f.Read(unhx(w[2])); err != nil {
@@ -85,6 +105,51 @@ var tsNear = []byte("0123456789-:., +TZ")
 func genVal(r *rng, tier string, idx int, o *out, do func(string) string) string {
 	// one case = a batch of independent ops
 	for k := 0; k < 200; k++ {
+		if r.chance(1, 8) {
+			// decimals: texts of the plain grammar (no exponent notation) and near misses; canonical texts for the writers
+			canon := func() []byte {
+				var b []byte
+				if r.chance(1, 3) {
+					b = append(b, '-')
+				}
+				n := 1 + r.intn(6)
+				for i := 0; i < n; i++ {
+					b = append(b, byte('0'+r.intn(10)))
+				}
+				if r.chance(2, 3) {
+					b = append(b, '.')
+					m := 1 + r.intn(8)
+					for i := 0; i < m; i++ {
+						b = append(b, byte('0'+r.pick2(r.intn(10), []int{0, 5, 9, 4}[r.intn(4)])))
+					}
+				}
+				return b
+			}
+			switch r.intn(4) {
+			case 0:
+				var b []byte
+				n := r.intn(7)
+				for i := 0; i < n; i++ {
+					b = append(b, r.pickByte([]byte("0123456789.-+")))
+				}
+				res := do("dec read " + hx(b))
+				o.kind("dec.read." + strings.Fields(res)[0])
+			case 1:
+				res := do("dec read " + hx(canon()))
+				o.kind("dec.read." + strings.Fields(res)[0])
+			case 2:
+				do(fmt.Sprintf("dec write %s %d", hx(canon()), r.intn(9)))
+				o.kind("dec.write")
+			default:
+				t := canon()
+				if len(t) > 0 && t[0] == '-' && r.chance(1, 2) {
+					t = t[1:]
+				}
+				do(fmt.Sprintf("udec write %s %d", hx(t), r.intn(9)))
+				o.kind("udec.write")
+			}
+			continue
+		}
 		switch c := r.intn(12); {
 		case c < 3: // int read
 			var b []byte
